@@ -277,6 +277,21 @@ def handler(c):
                     pass
         b, _ = run_session(c, shared_ds=ds)
         return {'first': a, 'second': b}
+    if c.get('mode') == 'after_other':
+        # session B on a fresh data source vs on a data source that already served a different session A
+        fresh, _ = run_session(c)
+        c_other = dict(c)
+        c_other['cfg'] = c['cfg_other']
+        first, ds = run_session(c_other)
+        extra = c.get('extra_queries') or []
+        if ds is not None:
+            for asset, t in extra:
+                try:
+                    ds.get_bid(ts(t), asset)
+                except Exception:
+                    pass
+        reused, _ = run_session(c, shared_ds=ds)
+        return {'first': fresh, 'second': reused, 'other_ok': first['init']}
     if c.get('mode') == 'pair':
         a, _ = run_session(c)
         c2 = dict(c)
